@@ -166,6 +166,15 @@ def run(ctx):
         """per-element byte terms of every alternative value of the output ([] for an empty output); None = unrecognised"""
         if v.op == "vec_new":
             return []
+        if v.op == "collected" and v.args[0].op == "flat_mapped":
+            return [v.args[0].args[1]]               # indices.flat_map(|s| bytes_of_element(s)).collect()
+        if v.op == "concat":
+            src = v.args[0]
+            while src.op in ("collected", "iter", "refv"):
+                src = src.args[0]
+            if src.op == "mapped":
+                return [src.args[1]]                 # per_element_vectors.concat()
+            return None
         if v.op == "fold":
             init, app = v.args[0], v.args[1]
             if init.op == "vec_new" and app.op == "append" and app.args[0].op == "acc":
